@@ -146,6 +146,21 @@ def build(backend):
             add("md-other-backend-unused", f"ds.Select(lambda e: e.{first}('A').Count())", [], md=[decl(other, "Things", THING[other][0], THING[other][1])], expect="refuse")
     for drop in ("name", "include_files", "container_type", "contains_collection", "element_type"):
         add(f"md-missing-{drop}", "ds.Select(lambda e: e.Things('A').Count())", [], md=[decl(backend, "Things", ct, et, drop=drop)], expect="refuse")
+    # a key that is only legal in ANOTHER backend's collection declaration
+    foreign = {"link_libraries": ["libX"]} if backend != "atlas" else {"element_pointer": False}
+    add("md-foreign-backend-key", "ds.Select(lambda e: e.Things('A').Count())", [], md=[decl(backend, "Things", ct, et, extra=foreign)], expect="refuse")
+    # ---- the same collection NAME bound to different container types by successive queries on ONE executor object
+    if backend != "cms_miniaod" or True:
+        builtin_q = f"ds.Select(lambda e: e.{first}('A').Select(lambda j: j.pt()))"
+        cfirst, hfirst, lfirst = colls[first]
+        add("hist-builtin-then-override", builtin_q, [(ct, "A")], md=[over], headers=[f"my/{first}.h"], libs=[f"lib{first}"] if backend == "atlas" else [])
+        cases[-1]["prior"] = [(builtin_q, [])]
+        add("hist-override-then-builtin", builtin_q, [(cfirst, "A")], headers=[hfirst], libs=[lfirst])
+        cases[-1]["prior"] = [(builtin_q, [over])]
+        add("hist-two-declarations", "ds.Select(lambda e: e.Things('A').Select(lambda j: j.pt()))", [(c2t, "A")], md=[decl(backend, "Things", c2t, e2t)], headers=hdr, libs=lib)
+        cases[-1]["prior"] = [("ds.Select(lambda e: e.Things('A').Select(lambda j: j.pt()))", [good])]
+        add("hist-declared-then-undeclared", "ds.Select(lambda e: e.Things('A').Count())", [], expect="refuse")
+        cases[-1]["prior"] = [("ds.Select(lambda e: e.Things('A').Count())", [good])]
     add("md-unknown-key", "ds.Select(lambda e: e.Things('A').Count())", [], md=[decl(backend, "Things", ct, et, extra={"bogus": 1})], expect="refuse")
     add("md-singleton-with-element", "ds.Select(lambda e: e.Things('A').Count())", [], md=[decl(backend, "Things", ct, et, singleton=True)], expect="refuse")
     add("md-zero-args", "ds.Select(lambda e: e.Things().Count())", [], md=[good], expect="refuse")
